@@ -75,6 +75,8 @@ def dec_array(d: dict) -> np.ndarray:
 
 def enc_value(v):
     """Encode a kwarg value (scalars, lists, None)."""
+    if isinstance(v, dict) and "__interval__" in v:
+        return v
     if isinstance(v, np.ndarray):
         return {"__array__": enc_array(v)}
     if isinstance(v, (list, tuple)):
@@ -92,6 +94,11 @@ def enc_value(v):
 
 def dec_value(v):
     if isinstance(v, dict):
+        if "__interval__" in v:
+            import pandas as pd
+
+            return pd.IntervalIndex.from_breaks([_dec_scalar(x, None) for x in v["__interval__"]["breaks"]],
+                                                closed=v["__interval__"]["closed"])
         if "__array__" in v:
             return dec_array(v["__array__"])
         if "__dtype__" in v:
